@@ -5,6 +5,7 @@ import (
 	_ "package-operator.run/internal/packages/zzverif/checks/c01"
 	_ "package-operator.run/internal/packages/zzverif/checks/c03"
 	_ "package-operator.run/internal/packages/zzverif/checks/c04"
+	_ "package-operator.run/internal/packages/zzverif/checks/c05"
 	_ "package-operator.run/internal/packages/zzverif/checks/c11"
 	_ "package-operator.run/internal/packages/zzverif/checks/c12"
 	_ "package-operator.run/internal/packages/zzverif/checks/c17"
